@@ -18,9 +18,12 @@
 (* once and never open sections.                                                  *)
 EXTENDS Naturals, Sequences, FiniteSets
 
-CONSTANTS Nodes, Virt, MaxUpd, MaxFail, FixMerge, ArmAt, Upfront, SplitStart
+CONSTANTS Nodes, Virt, MaxUpd, MaxFail, FixMerge, ArmAt, Upfront, SplitStart,
+          Cap      \* [Nodes -> 0..MaxUpd]: how many updates each node may make (bounds the model)
 
 Real == Nodes \ Virt
+CapAll  == [i \in Nodes |-> MaxUpd]
+CapAsym == [i \in Nodes |-> IF i = 1 THEN MaxUpd ELSE 1]
 
 VARIABLES value,   \* [Nodes -> Vec]  working state (crdt.value)
           old,     \* [Nodes -> Vec]  crdt.oldValue (Zero when hasOld is FALSE)
@@ -56,7 +59,7 @@ Init == /\ value = [i \in Nodes |-> Zero] /\ old = [i \in Nodes |-> Zero]
 
 ----------------------------------------------------------------------------
 (* ArchetypeResource methods *)
-Write(i) == /\ i \in Real /\ value[i][i] < MaxUpd
+Write(i) == /\ i \in Real /\ value[i][i] < Cap[i]
             /\ old' = IF hasOld[i] THEN old ELSE [old EXCEPT ![i] = value[i]]
             /\ hasOld' = [hasOld EXCEPT ![i] = TRUE]
             /\ value' = [value EXCEPT ![i][i] = @ + 1]
@@ -74,7 +77,7 @@ Abort(i) == /\ i \in Real /\ hasOld[i]
             /\ UNCHANGED <<nbc, mq, bph, owed, dlv, calls, fails, flt>>
 
 (* a harness-played peer commits an update of its own *)
-VWrite(k) == /\ k \in Virt /\ value[k][k] < MaxUpd
+VWrite(k) == /\ k \in Virt /\ value[k][k] < Cap[k]
              /\ value' = [value EXCEPT ![k][k] = @ + 1]
              /\ UNCHANGED <<old, hasOld, nbc, mq, bph, owed, dlv, calls, fails, flt>>
 
